@@ -16,11 +16,21 @@ class Monitor:
         self.L = [0] * nsrc           # max look-ahead per source
         self.pre = [0] * nsrc         # max rows pulled from a source before its first delivery
         self.delivered = 0
+        self.last = [-1] * nsrc
 
     def pull(self, k):
         self.pulled[k] += 1
 
+    def finish(self):
+        """After the run: rows pulled beyond the last delivered one were read ahead of... nothing."""
+        for k in range(len(self.pulled)):
+            if self.started[k]:
+                la = self.pulled[k] - (self.last[k] + 1)
+                if la > self.L[k]:
+                    self.L[k] = la
+
     def deliver(self, k, i):
+        self.last[k] = max(self.last[k], i)
         self.delivered += 1
         self.started[k] = True
         la = self.pulled[k] - (i + 1)
@@ -118,7 +128,7 @@ SYMS = {
 }
 CONTROL = {'sort_rows': S('sort_rows', '{_i}')}      # buffering step: the monitor's positive control
 SIGMA = list(SYMS)
-SOURCES = ['gen1', 'gen2', 'tuple1']
+SOURCES = ['gen1', 'gen2', 'tuple1', 'tuple-limit', 'genlist']
 
 
 def run_one(srckind, path, n):
@@ -132,9 +142,15 @@ def run_one(srckind, path, n):
         if srckind in ('gen1', 'gen2'):
             for k in range(nsrc):
                 links.append(gen_source(mon, k, n))
+        elif srckind == 'genlist':
+            # an iterable of lists (columns col0, col1, ...): renamed so that the steps of the alphabet still apply
+            names = [f[0] for f in FIELDS]
+            links.append(([r[c] for c in names] for r in gen_source(mon, 0, n)))
+            links.append(core.dataflows.rename_fields({'col%d' % i: c for i, c in enumerate(names)}))
         else:
             st = core.mkstate([('t', FIELDS, [])])
-            links.append(core.dataflows.load((copy.deepcopy(st.desc), [gen_source(mon, 0, n)])))
+            kw = {'limit_rows': 60} if srckind == 'tuple-limit' else {}
+            links.append(core.dataflows.load((copy.deepcopy(st.desc), [gen_source(mon, 0, n)]), **kw))
         try:
             for p, s in enumerate(path, start=1):
                 env.pos = p
@@ -147,6 +163,7 @@ def run_one(srckind, path, n):
                     yield r
             links.append(terminal)
             core.Flow(*links).process()
+            mon.finish()
         except core.CaseTimeout:
             raise
         except Exception as e:
